@@ -26,6 +26,8 @@ RULE = ("every DIE of generated forests (<= 8 units, partial units imported thro
 QD = ("entry (|D| [D] [D child] [D parent] [D root] [D unit] [D ?root] [D parent*] [D root ?root] [D offset] [D label] "
       "[D attribute label] [D D ?eq])")
 QU = "unit (|U| [U] [U entry] [U root] [U root child*])"
+QE = ("unit (|U| U [U entry] length [U root child*] length [U entry (|D| D ?(U root child* (|E| E D ?eq)))] length "
+      "[U root child* (|D| D ?(U entry (|E| E D ?eq)))] length)")
 
 
 def ident(d, cooked):
@@ -178,6 +180,23 @@ def check_file(drv, ev, path, what, f=None):
         why, nt = laws(ev, what, mode, rd, ru, rd2)
         if not why and f is not None:
             why = model_check(f, mode, rd, ru)
+        if not why and f is not None:
+            # the same, judged by the engine's own `==`: every DIE of `U entry` has an equal among `U root child*` and
+            # the other way round (the two producers hand out the same DIEs, whatever route they note down for them)
+            h = drv.open(path, mode == "raw")
+            try:
+                re_ = drv.run(QE, "V%d" % h, limit=2000, steps=400000000)
+            finally:
+                drv.req("vclose %d" % h)
+            if "error" not in re_ and re_.get("end"):
+                ev.label("engine-equality-of-entry-and-child-closure")
+                for s_ in re_["res"]:
+                    n = [int(x["v"]) for x in s_[-4:]]
+                    # (the closure keeps one of several DIEs that are `==`, so the two lists may differ in length)
+                    if n[2] != n[0] or n[3] != n[1]:
+                        why = ("unit %#x: `U entry` yields %d DIEs, `U root child*` %d; %d of the former have an `==` among the latter, %d of the latter among the former"
+                               % (s_[-5]["off"], n[0], n[1], n[2], n[3]))
+                        break
         out.append((mode, why, nt, len(rd["res"])))
     return out
 
